@@ -60,7 +60,7 @@ def load():
 def match(pid: str, v: Violation):
     """Return the id of the *known* (unrepaired) finding this violation falls under."""
     for f in load():
-        if f.get("status") != "known" or f.get("property") != pid:
+        if f.get("status") != "known" or pid not in [f.get("property"), *f.get("also", [])]:
             continue
         m = f.get("match", {})
         if all(
